@@ -196,12 +196,30 @@ impl TypeCollector {
     ) -> Vec<EventContext> {
         let type_resolver = analyzer.get_type_resolver();
 
+        // One listener per distinct event name (the same event may be emitted from several
+        // places), each under its own function identifier
+        let mut seen_event_names = std::collections::HashSet::new();
+        let mut used_function_names = std::collections::HashSet::new();
+
         events
             .iter()
+            .filter(|event| seen_event_names.insert(event.event_name.clone()))
             .map(|event| {
-                EventContext::new(config).from_event_info(event, visitor, &|rust_type: &str| {
-                    type_resolver.borrow_mut().parse_type_structure(rust_type)
-                })
+                let mut context = EventContext::new(config).from_event_info(
+                    event,
+                    visitor,
+                    &|rust_type: &str| type_resolver.borrow_mut().parse_type_structure(rust_type),
+                );
+
+                // Different event names can map to the same identifier (`a-b` and `a_b`)
+                let base_name = context.ts_function_name.clone();
+                let mut suffix = 2;
+                while !used_function_names.insert(context.ts_function_name.clone()) {
+                    context.ts_function_name = format!("{}{}", base_name, suffix);
+                    suffix += 1;
+                }
+
+                context
             })
             .collect()
     }
